@@ -363,6 +363,13 @@ impl pipe::Sink for RespondStream {
         }
         .await
     }
+
+    async fn flush(&mut self) -> io::Result<()> {
+        // Nothing is buffered here: h2 writes the queued frames out on its own. Waiting for
+        // capacity instead (the default) fails once END_STREAM has been sent, which turned
+        // every regular end of the download direction into a pipe error and a reset stream.
+        Ok(())
+    }
 }
 
 impl http_codec::DroppingSink for RespondStream {
